@@ -477,7 +477,9 @@ def run_property(pid, tier, obs, units, seed, level='proof', assumptions=(), tru
             with concurrent.futures.ThreadPoolExecutor(max_workers=jobs) as ex:
                 second = list(ex.map(again, pick))
             for r2 in second:
-                if r2['status'] != 'pass':
+                # a DISAGREEMENT (cadical refutes what minisat discharged) is a tool problem and leaves the check undecided; a second run that
+                # does not complete (memory cap, timeout) decides nothing either way: it is recorded as not completed, the first back end's result stands
+                if r2['status'] == 'fail':
                     undecided.append(dict(id=r2['id'] + ' [second back end]', reason='cadical does not confirm what minisat discharged: %s %s' % (r2['status'], r2.get('reason', '')[:200])))
     else:
         second = []
@@ -598,7 +600,8 @@ def run_property(pid, tier, obs, units, seed, level='proof', assumptions=(), tru
     if sweep_ran:
         cov['native_sweep'] = sweep_ran
     if tier == 'thorough':
-        cov['second_backend'] = dict(solver='cadical (cbmc --sat-solver cadical)', rechecked=[r2['id'] for r2 in second], confirmed=len([r2 for r2 in second if r2['status'] == 'pass']))
+        cov['second_backend'] = dict(solver='cadical (cbmc --sat-solver cadical)', rechecked=[r2['id'] for r2 in second], confirmed=len([r2 for r2 in second if r2['status'] == 'pass']),
+                                     not_completed=[dict(id=r2['id'], reason=r2.get('reason', '')[:160]) for r2 in second if r2['status'] == 'undecided'])
     ev = dict(property_id=pid, tier=tier, seed=seed, level=level, coverage=cov, assumptions=list(assumptions), wall_s=round(time.time() - t0, 1),
               violations=len(violations))
     if level == 'model_checking':
